@@ -33,7 +33,7 @@ DOC_MATCHERS = ['wl_surface', 'xdg_*', '5', '4b', '.commit', 'wl_surface.commit'
                 '.new', 'wl_surface.new', '.destroyed', '10.destroyed', 'wl_pointer, .commit', 'wl_pointer, wl_touch ! .motion ', 'xdg_* ! xdg_popup, .get_popup',
                 '(x=0, y=0)', '55a.[motion, axis]', '[wl_pointer ! 55, 62].motion', '([x=0, y=0])', '*', '!', 'A: wl_pointer, wl_surface.[commit, destroy]',
                 'wl_pointer.[! motion, frame]', '! wl_callback, .frame', '.set_title("my app")', '(1.5)', '(-3)', '@5b', '.(@5b)', '(x=[1, 2 ! 3])', 'wl_surface@', '#5']
-TOKENS = ['[', ']', '(', ')', '!', ',', '.', ':', '=', '@', '#', '*', '"', ' ', '~', '-', '\\', "'", '\x1b[31m', '\x1b[0m', '\t', 'nil', 'new', 'destroyed', 'żółć', '日本', '0', '007', '1e9',
+TOKENS = ['7' * 4400, '-' + '9' * 5000, '[' * 300, '(' * 300, '[' * 300 + 'x' + ']' * 300, '(' * 200 + ')' * 200, '1e999', '-1e999', 'infinity', '[', ']', '(', ')', '!', ',', '.', ':', '=', '@', '#', '*', '"', ' ', '~', '-', '\\', "'", '\x1b[31m', '\x1b[0m', '\t', 'nil', 'new', 'destroyed', 'żółć', '日本', '0', '007', '1e9',
           'inf', 'nan', '1_0', '99999999999999999999999', 'a' * 300, '\x00', '%s', '{', '}', '..', '::', '((', '))', '[[', ']]', '""', 'unknown', 'A', 'wl_display', '1a', 'zz']
 COMMANDS = ['help', 'list', 'filter', 'breakpoint', 'matcher', 'connection', 'resume', 'quit', 'h', 'l', 'f', 'b', 'm', 'c', 'r', 'q', 'w', 'wl', 'wlh', 'wll', 'wlf', 'wlb', 'wlm',
             'wlc', 'wlr', 'wlq', 'wayland', 'he', 'li', 'fi', 'br', 'ma', 'co', 're', 'qu', 'x', '', 'LIST', 'wlwl', 'wl wl', 'w w w', '\x1b[93mhelp\x1b[0m']
@@ -134,6 +134,10 @@ def run_log(ctx, spec):
         base = seed_lines(rng, cands)
         lines = mutate_lines(rng, base)
         lines = [l.replace('\n', ' ') for l in lines]
+        for _ in range(rng.choice([0, 0, 1, 2])):
+            # a connection whose very first line cannot be resolved (log attached late): it must still be opened AND closed
+            lines.insert(rng.randrange(len(lines) + 1), rng.choice(['[1.000] <%d> wl_display@1.delete_id(7)', '[   2.000] <%d>  -> wl_surface#9.commit()',
+                                                                  '[3.0] <%d> wl_registry@2.bind(1, "x")']) % rng.randint(600, 900))
         sup = rng.random() < 0.3
         case = {'log_lines': lines, 'supress': sup}
         ctx.ev()
@@ -210,7 +214,9 @@ def run_matcher(ctx, spec):
     # include ill-formed lines so that unresolved objects / unknown arguments / untyped objects are in the universe
     lines = [e['line'] for e in st['entries']]
     lines += ['[1.0] <%d>  -> zz_q@777.frob(new id [unknown]@778, nil, wl_what@999, ???, "s", 1.5, fd 3, array)' % st['tags'][0],
-              '[1.0] <%d> wl_display@1.delete_id(424242)' % st['tags'][0]]
+              '[1.0] <%d> wl_display@1.delete_id(424242)' % st['tags'][0],
+              '[1.0] <%d> zz_q@777.odd(1e999, -1e999, 1e-999, %s, -%s, 0.0, -0.0, 1e308, fd 99999999999999999999)' % (st['tags'][0], '9' * 400, '9' * 400),
+              '[1.0] <%d> zz_q@778.odd2("", "%s", nil, nil)' % (st['tags'][0], 'x' * 5000)]
     s.feed([l + '\n' for l in lines])
     msgs = list(s.ctl.all_messages)
     accepted = 0
@@ -250,7 +256,7 @@ def gen_command(rng, names):
     c = rng.choice(COMMANDS)
     if r < 0.2:
         return c
-    arg = rng.choice([gen_matcher_text(rng), rng.choice(names + ['all', 'bogus', '']), '~ ' + str(rng.randint(-3, 9)), gen_matcher_text(rng) + ' ~ ' + rng.choice(['1', 'x', '', '-1', '1 ~ 2']),
+    arg = rng.choice([gen_matcher_text(rng), rng.choice(names + ['all', 'bogus', '']), '~ ' + str(rng.randint(-3, 9)), '~ ' + rng.choice(['inf', '-inf', 'nan', '1e999', '1e3', '2.5', '9' * 5000, '0x10', '١٢']), gen_matcher_text(rng) + ' ~ ' + rng.choice(['1', 'x', '', '-1', '1 ~ 2']),
                       rng.choice(COMMANDS), ''.join(rng.choice(TOKENS) for _ in range(rng.randint(0, 6)))])
     line = c + rng.choice([' ', '  ', '\t', '']) + arg
     if rng.random() < 0.1:
